@@ -158,7 +158,7 @@ def build_wf_p(spec: dict, pv: dict):
             return wf.InterpolatedWaveform(P(spec["d"]), P(spec["values"]), interpolator="interp1d", kind=spec["interp1d_kind"])
         return wf.InterpolatedWaveform(P(spec["d"]), P(spec["values"]))
     if k == "custom":
-        return wf.CustomWaveform(spec["samples"])
+        return wf.CustomWaveform(P(spec["samples"]))
     if k == "composite":
         return wf.CompositeWaveform(*[build_wf_p(p, pv) for p in spec["parts"]])
     raise ValueError(k)
@@ -184,7 +184,12 @@ def issue_param(seq, op: dict, pv: dict):
         return seq.target_index(P(op["qubits"]), op["ch"])
     if k == "add":
         ps = op["pulse"]
-        pulse = Pulse(build_wf_p(ps["amp"], pv), build_wf_p(ps["det"], pv), P(ps["phase"]), P(ps.get("pps", 0.0)))
+        if ps.get("ctor") == "arbitrary_phase":
+            import pulser.waveforms as wf
+
+            pulse = Pulse.ArbitraryPhase(build_wf_p(ps["amp"], pv), wf.ConstantWaveform(P(ps["amp"]["d"]), P(ps["phase"])), post_phase_shift=P(ps.get("pps", 0.0)))
+        else:
+            pulse = Pulse(build_wf_p(ps["amp"], pv), build_wf_p(ps["det"], pv), P(ps["phase"]), P(ps.get("pps", 0.0)))
         if "protocol" in op:
             return seq.add(pulse, op["ch"], op["protocol"])
         return seq.add(pulse, op["ch"])
@@ -527,6 +532,8 @@ def lift_program(rng: random.Random, prog: list, v0: dict, names: dict, p: float
             w["a"], w["b"] = L(w["a"]), L(w["b"])
         elif k in ("blackman", "kaiser"):
             w["area"] = L(w["area"])
+        elif k == "custom" and "cw" in names and list(w["samples"]) == list(v0["cw"]):
+            w["samples"] = {"e": "arr", "name": "cw"}
         elif k == "interp" and "arr" in names and rng.random() < p and len(w["values"]) >= 1:
             w["values"] = {"e": "arr", "name": "arr"} if rng.random() < 0.6 else {"e": "arr", "name": "arr", "sl": G.pick(rng, [[0, 2], [0, 2], [1, 3], [None, None, -1], [None, None, 2], [2, None, -1], [-2, None]])}
         return w
@@ -648,6 +655,12 @@ def gen_template_world(seed: int, prop: str, run: int, profile: dict) -> dict:
         if vr.random() < p_decl:
             names[name] = True
             variables.append({"name": name, "int": is_int, "size": size, "array": size > 1})
+    customs = [o["pulse"]["amp"]["samples"] for o in prog if o["op"] == "add" and o["pulse"]["amp"].get("w") == "custom" and len(o["pulse"]["amp"]["samples"]) <= 80]
+    if customs and vr.random() < 0.7:
+        # the whole sample array of a CustomWaveform is a variable (the built
+        # waveform may hold on to the array the variable stores)
+        names["cw"] = True
+        variables.append({"name": "cw", "int": False, "size": len(customs[0]), "array": True})
     tidx = [o["qubits"] for o in prog if o["op"] == "target_index" and isinstance(o.get("qubits"), int)]
     if tidx and vr.random() < 0.6:
         names["ks"] = True
@@ -657,7 +670,7 @@ def gen_template_world(seed: int, prop: str, run: int, profile: dict) -> dict:
     n0 = G.pick(vr, [48, 96, 104, 200])
     arr0 = [round(vr.uniform(0.5, 3.0), 3) for _ in range(3)]
     nq = len(reg["ids"])
-    base = {"a": a0, "n": n0, "arr": arr0, "k": vr.randrange(nq), "ks": [tidx[0], tidx[0]] if tidx else [0, 0]}
+    base = {"a": a0, "n": n0, "arr": arr0, "k": vr.randrange(nq), "ks": [tidx[0], tidx[0]] if tidx else [0, 0], "cw": list(customs[0]) if customs else [0.0]}
     v0 = {k: v for k, v in base.items() if k in names}
     assigns = [v0]
     for _ in range(vr.randint(1, 3)):
@@ -673,6 +686,9 @@ def gen_template_world(seed: int, prop: str, run: int, profile: dict) -> dict:
         if "ks" in names:
             q2 = G.pick(vr, [base["ks"][0], (base["ks"][0] + 1) % nq])
             alt["ks"] = [q2, q2]
+        if "cw" in names:
+            f = G.pick(vr, [1.0, 0.9, 0.5])
+            alt["cw"] = [round(x * f, 6) for x in base["cw"]]
         assigns.append(alt)
     # 3. lift numeric positions into expressions
     lp = profile.get("lift_p", 0.45)
@@ -793,6 +809,16 @@ class TemplateRun:
             self.viol(f"{label}/build-accepted-invalid", step, f"{who}({vals}) returned a sequence but issuing the same calls directly raises at {d_err}")
         elif not b_err:
             kb, kd = seq_key(B), seq_key(D)
+            # sequences handed out by EARLIER builds are the caller's: a new build
+            # must not change them
+            for (B0, k0, v0_) in getattr(self, "kept", []):
+                if not keys_close(seq_key(B0), k0):
+                    self.viol(f"{label}/earlier-build-changed", step, f"the sequence returned by build({v0_}) changed when the template was built again with {vals}")
+                    self.kept = []
+                    break
+            else:
+                self.stats["probe/earlier_builds_rechecked"] += len(getattr(self, "kept", []))
+            self.kept = (getattr(self, "kept", []) + [(B, kb, vals)])[-2:]
             if not keys_close(kb, kd):
                 self.viol(f"{label}/build-differs", step, f"{who}({vals}{', qubits=%s' % qubits if qubits else ''}) differs from direct construction: {key_diff(kb, kd)}")
             return kb
